@@ -53,7 +53,7 @@ Print Assumptions c03_linearizable.
    the same bytes, and leaves the same value, as the one-tier orchestrator on a one-key map *)
 Theorem c03_ref_is_single_map : forall now k r key v,
   in_scope k r = true -> req_key r = Some key ->
-  let s := mkSec key true (to_cprog now key (base_orca k r) []) in
+  let s := mkSec key true (to_cprog_gen now (is_one k) key (base_orca k r) []) in
   let '(s', _, cs0, e0) := run std_exec std_exec (l1only r) (single key v) empty_store now in
   ref_sec now s v = (live now s' key, (render_all Bin cs0, render_all Text cs0, e0)).
 Proof. exact ref_is_single_map. Qed.
